@@ -205,7 +205,8 @@ class NativeOperands(Sub):
             z = draw(S.zones_with_transitions())
             zp = z if draw(st.booleans()) else draw(S.zones())
             return {"zn": z, "zp": zp, "w": draw(st.one_of(S.wall_near_transition(z), S.wall_near_transition(z), S.uniform_instant())), "fold": draw(st.integers(0, 1)),
-                    "kind": draw(st.sampled_from(["zoneinfo", "zoneinfo", "pytz-localize", "pytz-ctor", "dateutil", "timezone"])), "is_dst": draw(st.booleans()),
+                    "kind": draw(st.sampled_from(["zoneinfo", "zoneinfo", "pytz-localize", "pytz-ctor", "dateutil", "timezone", "timezone-frac"])),
+                    "frac_us": draw(st.sampled_from([1, 500000, 999999, 250000]) | st.integers(1, 999999)), "is_dst": draw(st.booleans()),
                     "up": draw(st.one_of(S.uniform_instant(), S.instant_near_transition(z))), "prov": draw(st.sampled_from(["convert", "construct"]))}
         return gen()
 
@@ -228,6 +229,9 @@ class NativeOperands(Sub):
             if dtz is None:
                 raise Skip("dateutil cannot load the zone")
             n = D.datetime(*f, tzinfo=dtz, fold=case["fold"])
+        elif kind == "timezone-frac":
+            # a datetime.timezone may carry a sub-second offset (local mean time from a longitude): the instant is still wall - offset
+            n = D.datetime(*f, tzinfo=D.timezone(D.timedelta(seconds=T.offset_at(w, zn), microseconds=case.get("frac_us", 500000))))
         else:
             n = D.datetime(*f, tzinfo=D.timezone(D.timedelta(seconds=T.offset_at(w, zn))))
         off = n.utcoffset()
